@@ -487,12 +487,16 @@ func (m *memMonitor) check(t, op int, site uint32) string {
 // runTaskBody returns the body of a task: execute its ops in order.
 func runTaskBody(sc *Scenario, w *World, t int, results []Result, after func(i int, op *Op, r *Result)) func() {
 	return func() {
+		defer panicOnFault()()
 		for i := range sc.Tasks[t].Ops {
 			if verifrt.Aborted() {
 				return
 			}
 			op := &sc.Tasks[t].Ops[i]
 			results[i] = execOp(w, op)
+			if results[i].WriteFault != "" {
+				verifrt.Violate("monitor", results[i].WriteFault+fmt.Sprintf(" while task %d executed op #%d %s", t, op.ID, op.Name))
+			}
 			if verifrt.Aborted() {
 				return
 			}
@@ -562,6 +566,8 @@ func refC18(sc *Scenario) (res [][]Result, out *Outcome) {
 		resetLibrary()
 		applyKnobs(sc.Knobs)
 		w := buildWorld(sc)
+		release := protectShared(sc, w)
+		defer release()
 		mon := newMemMonitor(sc, w)
 		res[t] = make([]Result, len(sc.Tasks[t].Ops))
 		var alias string
@@ -611,6 +617,8 @@ func runC18(sc *Scenario) *Outcome {
 	resetLibrary()
 	applyKnobs(sc.Knobs)
 	w := buildWorld(sc)
+	release := protectShared(sc, w)
+	defer release()
 	mon := newMemMonitor(sc, w)
 	res := make([][]Result, len(sc.Tasks))
 	bodies := make([]func(), len(sc.Tasks))
